@@ -2,7 +2,7 @@ SPECIFICATION Spec
 CONSTANTS
   W = 4
   IntMax = 3
-  FracMax = 10
+  FracMax = 9
   FracAlphabet = {"0", "5", "9"}
 INVARIANT Inv
 CHECK_DEADLOCK FALSE
